@@ -216,7 +216,7 @@ func judge(c *call) verdict {
 	default:
 		if got != w.show {
 			v.kind = "wrong-value"
-			if sameKindOfSeq(got, w.show) == false {
+			if !sameKindOfSeq(got, w.show) {
 				v.kind = "wrong-result-type"
 			}
 		}
@@ -229,7 +229,8 @@ func judge(c *call) verdict {
 }
 
 // sameKindOfSeq: both renderings denote the same sequence type (list/nil,
-// vector, string) — used to tell a wrong result type from a wrong value.
+// vector, string) or one of them is an atom — used to tell a wrong result
+// type from a wrong value.
 func sameKindOfSeq(a, b string) bool {
 	k := func(s string) byte {
 		switch {
@@ -243,21 +244,7 @@ func sameKindOfSeq(a, b string) bool {
 		return 'a' // atom
 	}
 	ka, kb := k(a), k(b)
-	if ka == 'a' || kb == 'a' {
-		return true // atoms (indices, elements): a wrong value, not a wrong type
-	}
-	// the elements must agree for it to be only a type problem
-	strip := func(s string) string {
-		s = strings.TrimPrefix(s, "#")
-		return s
-	}
-	if ka != kb && strip(a) == strip(b) {
-		return false
-	}
-	if ka != kb && (a == "nil" && (b == "#()" || b == `""`) || b == "nil" && (a == "#()" || a == `""`)) {
-		return false
-	}
-	return true
+	return ka == 'a' || kb == 'a' || ka == kb
 }
 
 // ---------------------------------------------------------------- signature
